@@ -453,7 +453,11 @@ class SeqBuilder:
                 return
             if e_term and not e_items:
                 self.env = env_t
-                items.extend(t_items) if not t_items else items.append(Item("if", n, cond=cond, then=t_items, els=[]))
+                if not t_items or (self.mode == "r" and n.get("else") is not None):
+                    # reader: `if (ok) { read ... } else return NULL;` - the else is the rejecting exit, like `if (!ok) return NULL;`
+                    items.extend(t_items)
+                else:
+                    items.append(Item("if", n, cond=cond, then=t_items, els=[]))
                 return
             merged = {}
             for p in set(env_t) | set(env_e):
